@@ -34,7 +34,8 @@ RULE = ('a pool of near-colliding call specs (same length / different filter, sa
         'one fresh process per spec; histories = seeded operation sequences run with 1..16 threads sharing module '
         'instances under injected pre-emption (and injected exceptions in the thorough tier); an evaluation is one '
         'returned call compared with the table or one attached-monitor verdict; distinct = distinct (spec, thread '
-        'count, position-in-history) triples; non-trivial when the call returned tensors')
+        'count, position-in-history) triples; non-trivial when the call returned tensors'
+        "; calls inside torch.no_grad / inference_mode / set_grad_enabled(False), strided arguments, cotangents bit-identical after autograd.grad, module buffers independent of the caller's filter arrays, torch-global state unchanged by every call")
 ASSUMPTIONS = ['torch kernels are deterministic for a fixed intra-op thread setting (pinned to 1)',
                'schedules are sampled, not enumerated; CPython serialises bytecodes, true parallelism exists only '
                'inside torch ops', 'float results compared bitwise, 4-ulp fallback class is inconclusive']
